@@ -34,6 +34,10 @@ class EngineProp(Prop):
         if 'script' in case:
             await H.run_script(case['script'])
             script = case['script']
+            if getattr(H.t, 'gated', False):
+                # (a shrunk script may have lost its closing "gate off": the link always recovers before the epilogue)
+                await H.apply_async({'op': 'gate', 'on': False})
+                await loop.settle()
         else:
             rng = random.Random(case['seed'])
             sh = enginegen.Shadow(case['role'])
